@@ -367,6 +367,9 @@ class _FilePersistence(_ConcretePersistence):
                 data_point, previous_run_id = self._parse_data_line(
                     data_point, line, line_number, runs, filtered_data_file, previous_run_id)
             except (ValueError, IndexError) as err:
+                # a line that cannot be read is not a measurement of a selected run: it is kept
+                if filtered_data_file:
+                    filtered_data_file.write(line)
                 msg = str(err)
                 if not errors:
                     self.ui.debug_error_info("Failed loading data from data file: "
